@@ -39,6 +39,50 @@ theorem SlotOK.adel {G : List (Nat × Handle)} {sl : SlotB} (h : SlotOK G sl) {i
   simp [SlotB.tracksObj, h1] at this
   exact this hmem
 
+theorem OwnOK.adel {O : List (Nat × Nat)} {G : List (Nat × Handle)} (h : OwnOK O G) (i : Nat) :
+    OwnOK O (Sigc.Model.adel G i) := by
+  intro p hp hd hg he
+  rw [aget_adel] at hg
+  split at hg
+  · contradiction
+  · exact h p hp hd hg he
+
+/-- the common part of `delG` and `dropHandle`: `~trackable` (trackable flavours), the name is released,
+    then the impl dies if this was its last handle and it is not emitting -/
+theorem good_dropTail {s : St} (h : Inv s) {i : Nat} {hd : Handle} (hg : aget s.G i = some hd)
+    (hpin' : ¬ (hd.everFwd = true ∧ hd.fl.isTrackable = false)) :
+    Good0 s (match hd.impl with
+      | some im => gcImpl { (if hd.fl.isTrackable = true then invalidateTrackable s hd.trk else s) with
+          G := Sigc.Model.adel (if hd.fl.isTrackable = true then invalidateTrackable s hd.trk else s).G i } im
+      | none => { (if hd.fl.isTrackable = true then invalidateTrackable s hd.trk else s) with
+          G := Sigc.Model.adel (if hd.fl.isTrackable = true then invalidateTrackable s hd.trk else s).G i }) := by
+  generalize hs1 : (if hd.fl.isTrackable = true then invalidateTrackable s hd.trk else s) = s1
+  have g1 : Good0 s s1 := by
+    subst hs1; split
+    · exact good_invalidateTrackable h _
+    · exact Good.refl h
+  have hG1 : s1.G = s.G := by
+    subst hs1; split
+    · exact invalidateTrackable_G _ _
+    · rfl
+  have hnt : hd.fl.isTrackable = true →
+      (∀ j v, aget s1.S j = some v → v.slot.tracksObj hd.trk = false) ∧
+      (∀ j im, aget s1.impls j = some im → ∀ c ∈ im.cells, c.slot.tracksObj hd.trk = false) := by
+    intro htk; subst hs1; simp only [htk, if_true]
+    exact noTrack_invalidateTrackable h _
+  have hg1 : aget s1.G i = some hd := by rw [hG1]; exact hg
+  have g2 : Good0 s1 { s1 with G := Sigc.Model.adel s1.G i } := by
+    have i1 := g1.inv
+    refine ⟨⟨i1.keys, i1.lt, i1.ok, i1.disj, ?_, ?_, ?_, i1.noerr, i1.own.adel i⟩, Frame.of_eq (Nat.le_refl _) rfl rfl⟩
+    · intro p hp k hk; exact i1.himpl p (mem_adel hp).1 k hk
+    · intro j v hv
+      exact (i1.fwdS j v hv).adel hg1 hpin' (fun htk => (hnt htk).1 j v hv)
+    · intro j im hj c hc
+      exact (i1.fwdC j im hj c hc).adel hg1 hpin' (fun htk => (hnt htk).2 j im hj c hc)
+  cases hd.impl with
+  | none => exact g1.trans g2
+  | some im => exact (g1.trans g2).andThen (fun h => Good.gcImpl h im)
+
 theorem step_delG {s s' : St} {r : String} (i : Nat) (h : Inv s)
     (hs : stepSimple s (.delG i) = some (s', r)) : Good0 s s' := by
   simp only [stepSimple] at hs
@@ -48,35 +92,31 @@ theorem step_delG {s s' : St} {r : String} (i : Nat) (h : Inv s)
     split at hs
     · core_branch h hs
     · rename_i hpin
-      simp at hs; obtain ⟨h1, h2⟩ := hs; subst h1; subst h2
-      have hpin' : ¬ (hd.everFwd = true ∧ hd.fl.isTrackable = false) := by
-        simpa using hpin
-      generalize hs1 : (if hd.fl.isTrackable = true then invalidateTrackable s hd.trk else s) = s1
-      have g1 : Good0 s s1 := by
-        subst hs1; split
-        · exact good_invalidateTrackable h _
-        · exact Good.refl h
-      have hG1 : s1.G = s.G := by
-        subst hs1; split
-        · exact invalidateTrackable_G _ _
-        · rfl
-      have hnt : hd.fl.isTrackable = true →
-          (∀ j v, aget s1.S j = some v → v.slot.tracksObj hd.trk = false) ∧
-          (∀ j im, aget s1.impls j = some im → ∀ c ∈ im.cells, c.slot.tracksObj hd.trk = false) := by
-        intro htk; subst hs1; simp only [htk, if_true]
-        exact noTrack_invalidateTrackable h _
-      have hg1 : aget s1.G i = some hd := by rw [hG1]; exact hg
-      have g2 : Good0 s1 { s1 with G := Sigc.Model.adel s1.G i } := by
-        have i1 := g1.inv
-        refine ⟨⟨i1.keys, i1.lt, i1.ok, i1.disj, ?_, ?_, ?_, i1.noerr⟩, Frame.of_eq (Nat.le_refl _) rfl rfl⟩
-        · intro p hp k hk; exact i1.himpl p (mem_adel hp).1 k hk
-        · intro j v hv
-          exact (i1.fwdS j v hv).adel hg1 hpin' (fun htk => (hnt htk).1 j v hv)
-        · intro j im hj c hc
-          exact (i1.fwdC j im hj c hc).adel hg1 hpin' (fun htk => (hnt htk).2 j im hj c hc)
-      cases hd.impl with
-      | none => exact g1.trans g2
-      | some im => exact (g1.trans g2).andThen (fun h => Good.gcImpl h im)
+      split at hs
+      · core_branch h hs
+      · simp at hs; obtain ⟨h1, h2⟩ := hs; subst h1; subst h2
+        have hpin' : ¬ (hd.everFwd = true ∧ hd.fl.isTrackable = false) := by
+          simpa using hpin
+        exact good_dropTail h hg hpin'
+
+/-- `dropHandle`: the destruction of a signal object that is not pinned -/
+theorem good_dropHandle {s : St} (h : Inv s) (g : Nat)
+    (hpin : ∀ hd, aget s.G g = some hd → hd.everFwd = true → hd.fl.isTrackable = true) :
+    Good0 s (dropHandle s g) := by
+  unfold dropHandle
+  cases hg : aget s.G g with
+  | none => exact Good.refl h
+  | some hd =>
+    simp only
+    have hpin' : ¬ (hd.everFwd = true ∧ hd.fl.isTrackable = false) := by
+      intro ⟨a, b⟩; have := hpin hd hg a; rw [b] at this; contradiction
+    exact good_dropTail h hg hpin'
+
+/-- `delG`, when it does not refuse, is `dropHandle` -/
+theorem delG_eq_dropHandle {s : St} {g : Nat} {hd : Handle} (hg : aget s.G g = some hd)
+    (hp : (hd.everFwd && !hd.fl.isTrackable) = false) (ho : s.ownedG.any (fun p => p.2 = g) = false) :
+    stepSimple s (.delG g) = some (dropHandle s g, "ok") := by
+  simp only [stepSimple, dropHandle, hg, hp, ho, Bool.false_eq_true, if_false]
 
 /-! ## connect -/
 
